@@ -38,7 +38,8 @@ def always_failing_assert(st):
 class BlockChecker:
     """Walk a block under a constant environment; report aborting arms and use-before-definition."""
 
-    def __init__(self, ev, tracked, track_env=False):
+    def __init__(self, ev, tracked, track_env=False, preconditions=None):
+        self.preconditions = preconditions or {}     # callee name -> FunctionDef whose LEADING asserts are evaluated with the abstract arguments of each call
         self.track_env = track_env
         self.ev = ev
         self.tracked = tracked
@@ -68,6 +69,18 @@ class BlockChecker:
             for n in ast.walk(st):
                 if isinstance(n, ast.Name) and isinstance(n.ctx, ast.Load) and n.id in self.tracked and n.id not in assigned:
                     self.problems.append(('unbound', n, 'name %r may be used before assignment' % n.id))
+            for c in [x for x in ast.walk(st) if isinstance(x, ast.Call) and isinstance(x.func, ast.Name) and x.func.id in self.preconditions]:
+                callee = self.preconditions[c.func.id]
+                params = [a.arg for a in callee.args.args]
+                sub = Evaluator(env={p: self.ev.ev(a) for p, a in zip(params, c.args)}, consts=self.ev.consts, calls=self.ev.calls)
+                for a in callee.body:
+                    if isinstance(a, ast.Expr) and isinstance(a.value, ast.Constant):
+                        continue
+                    if not isinstance(a, ast.Assert):
+                        break
+                    if sub.truth(sub.ev(a.test)) is False:
+                        self.problems.append(('abort', st, 'the call of %s violates its own precondition `assert %s`' % (c.func.id, ast.unparse(a.test)[:60])))
+                        return None
             if isinstance(st, ast.Return):
                 return None             # block ends normally here
             if isinstance(st, ast.Raise):
@@ -183,7 +196,7 @@ def _run_base(ctx):
     arm_hits = {}
     for la, lp, ra, rp in combos:
         ev = _m['make_ev'](la, lp, ra, rp)
-        bc = BlockChecker(ev, tracked)
+        bc = BlockChecker(ev, tracked, preconditions={'_merge_concurrent_inserts': repo.func(GEN + ':_merge_concurrent_inserts')})
         reach = reachable_arms(ev, bigif)
         for idx, body in reach:
             arm_hits.setdefault(idx, []).append('%s%s/%s%s' % (la, lp, ra, rp))
